@@ -54,6 +54,26 @@ def fieldset():
             tm=FM(dimensions=Dimensions.from_abbrev('TM'), description='thrust mode', units='u'),
             tsm=FM(dimensions=Dimensions.from_abbrev('TSM'), description='species x thrust mode', units='u'),
         )
+        # the same fields as two field sets, for the layout that keeps ts2 / tsm in an associated file
+        FieldSet(
+            'vc_codec_a',
+            t_f=FM(dimensions=T, description='opt float', units='u', required=False),
+            t_i=FM(dimensions=T, field_type=np.int32, description='opt int', units='u', required=False),
+            t_s=FM(dimensions=T, field_type=str, description='opt str', units='u', required=False),
+            t_fd=FM(dimensions=T, description='opt float with default', units='u', required=False, default=2.5),
+            t_id=FM(dimensions=T, field_type=np.int32, description='opt int with default', units='u', required=False, default=0),
+            t_req=FM(dimensions=T, description='req float', units='u'),
+            tp_f=FM(description='pointwise float', units='u'),
+            tp_i=FM(field_type=np.int32, description='pointwise int', units='u'),
+            ts1=FM(dimensions=Dimensions.from_abbrev('TS'), description='species scalar 1', units='u'),
+            tsp=FM(dimensions=Dimensions.from_abbrev('TSP'), description='species pointwise', units='u'),
+            tm=FM(dimensions=Dimensions.from_abbrev('TM'), description='thrust mode', units='u'),
+        )
+        FieldSet(
+            'vc_codec_b',
+            ts2=FM(dimensions=Dimensions.from_abbrev('TS'), description='species scalar 2', units='u'),
+            tsm=FM(dimensions=Dimensions.from_abbrev('TSM'), description='species x thrust mode', units='u'),
+        )
         _registered = True
     return FieldSet.from_registry('vc_codec')
 
@@ -92,9 +112,16 @@ def values_for(case, t, n):
 
 def build(case, t):
     traj = make_payload(t, 0)
-    traj.add_fields(fieldset())
+    fs = fieldset()
+    if case['layout'] in ('split', 'split_assoc'):
+        FieldSet = _aeic()[2]
+        traj.add_fields(FieldSet.from_registry('vc_codec_a'))
+        if case['layout'] == 'split':
+            traj.add_fields(FieldSet.from_registry('vc_codec_b'))
+    else:
+        traj.add_fields(fs)
     for k, x in values_for(case, t, len(traj)).items():
-        if x is UNTOUCHED:
+        if x is UNTOUCHED or (case['layout'] == 'split_assoc' and k in ('ts2', 'tsm')):
             continue
         if x is not None or k in DEFAULTS:
             setattr(traj, k, x)  # default-bearing fields are explicitly given None
@@ -194,6 +221,26 @@ def run_case(case):
                 ts = TS.create(base_file=base)
                 for t in range(1, ntraj + 1):
                     ts.add(build(case, t))
+            elif layout == 'split':
+                ts = TS.create(base_file=base, associated_files=[(assoc, ['vc_codec_b'])])
+                for t in range(1, ntraj + 1):
+                    ts.add(build(case, t))
+                open_kw = {'associated_files': [assoc]}
+            elif layout == 'split_assoc':
+                ts = TS.create(base_file=base)
+                for t in range(1, ntraj + 1):
+                    ts.add(build(case, t))
+                ts.close()
+                ts = TS.open(base_file=base)
+                Assoc.FIELD_SETS = [_aeic()[2].from_registry('vc_codec_b')]
+
+                def mapping_b(traj):
+                    t = ident(traj, False)['p']
+                    v = values_for(case, t, len(traj))
+                    return Assoc({'ts2': v['ts2'], 'tsm': v['tsm']})
+
+                ts.create_associated(assoc, ['vc_codec_b'], mapping_b)
+                open_kw = {'associated_files': [assoc]}
             elif layout == 'assoc_at_create':
                 ts = TS.create(base_file=base, associated_files=[(assoc, ['vc_codec'])])
                 for t in range(1, ntraj + 1):
@@ -266,6 +313,7 @@ def run_case(case):
 
 
 def neg_control(ctx, sub, expect):
+    sub = dict(sub, **{'U = {1, 3, 5}': 'U = {1, 5}'})  # the defective variants show on the smallest universe with a gap
     res = tlc.run('codec/Codec', 'codec/MC_Codec.cfg', sub=sub)
     if expect not in res['out']:
         raise MachineryError(f'negative control {sub} did not produce "{expect}"')
@@ -274,7 +322,7 @@ def neg_control(ctx, sub, expect):
 def run(ctx: Ctx):
     ctx.rule = (
         'cases = species subsets for 4 species-indexed fields (TS, TS, TSP, TSM) x second-trajectory selector x unset pattern of 3 optional '
-        'scalars x set/None/never-assigned pattern of 2 default-bearing optional scalars x 5 file layouts; exhaustive over the 2-species universe {CO2, NOx} (gap in the enum), seeded random over {CO2, HC, NOx, SO4}; '
+        'scalars x set/None/never-assigned pattern of 2 default-bearing optional scalars x 7 file layouts (incl. a species-carrying base file with an associated file of its own species list made by create_associated); exhaustive over the 2-species universe {CO2, NOx} (gap in the enum), seeded random over {CO2, HC, NOx, SO4}; '
         'non-trivial = file species list has a gap w.r.t. the Species enumeration or fields carry different species sets'
     )
     ctx.assumptions += [
@@ -287,9 +335,10 @@ def run(ctx: Ctx):
         tlc.check(ctx, 'codec/Codec', 'codec/MC_Codec.cfg')
         neg_control(ctx, {'Design = "filepos"': 'Design = "enumpos"'}, 'Invariant NoWriteError is violated')
         neg_control(ctx, {'ReadRule = "written"': 'ReadRule = "all"'}, 'Invariant RoundTrip is violated')
-        neg_control(ctx, {'ScalarRule = "fill_is_unset"': 'ScalarRule = "fill_is_default"'}, 'Invariant ScalarRoundTrip is violated')
-        ctx.extra['negative_controls'] = 'Design=enumpos violates NoWriteError; ReadRule=all violates RoundTrip; ScalarRule=fill_is_default violates ScalarRoundTrip (as expected)'
-        gen = tlc.check(ctx, 'codec/CodecGen', 'codec/Gen_Codec.cfg', workers=8)
+        neg_control(ctx, {'ScalarRule = "fill_is_unset"': 'ScalarRule = "fill_is_default"', 'DfltSpace <- PlainDflt': 'DfltSpace <- SomeDflt', 'LayoutSpace <- TwoLayouts': 'LayoutSpace <- OneLayout'}, 'Invariant ScalarRoundTrip is violated')
+        neg_control(ctx, {'ListRule = "own_file"': 'ListRule = "first_file"'}, 'Invariant RoundTrip is violated')
+        ctx.extra['negative_controls'] = 'Design=enumpos violates NoWriteError; ReadRule=all violates RoundTrip; ScalarRule=fill_is_default violates ScalarRoundTrip; ListRule=first_file violates RoundTrip (as expected)'
+        gen = tlc.check(ctx, 'codec/CodecGen', 'codec/Gen_Codec.cfg', workers=8, sub={'UnsetSpace <- AllUnset': 'UnsetSpace <- SomeUnset'} if ctx.quick else None)
         cases = gen['emitted']
         n = 300 if ctx.quick else 6000
         sim = tlc.check(ctx, 'codec/CodecGen', 'codec/Sim_Codec.cfg', workers=1, simulate='num=1', depth=n + 5, seed=ctx.seed, sub={'D = 100': f'D = {n}'})
